@@ -799,15 +799,12 @@ impl StoryState {
         // except with the current flow replaced with the copy above
         // (Assuming we're in multi-flow mode at all. If we're not then
         // the above copy is simply the default flow copy and we're done)
+        // (The current flow is never also kept among the named flows in this port: it is
+        // removed from them when it becomes current. Inserting a clone of it here left a
+        // stale duplicate that a later save wrote over the live flow.)
         if self.named_flows.is_some() {
-            let mut nf = self.named_flows.clone();
-            nf.as_mut().unwrap().insert(
-                copy.current_flow.name.to_string(),
-                copy.current_flow.clone(),
-            );
+            copy.named_flows = self.named_flows.clone();
             copy.alive_flow_names_dirty = true;
-
-            copy.named_flows = nf;
         }
 
         if self.has_error() {
